@@ -1589,6 +1589,8 @@ impl Check for ClientCheck {
                             },
                         );
                     }
+                    // (a card reading was added behind random_transport's back: bound its duration again)
+                    limit_delays(&mut p);
                     p
                 }));
             }
